@@ -43,6 +43,12 @@ def cells(tier):
                 for outcome in OUTCOMES:
                     for first in FIRST:
                         out.append(dict(kind=kind, p=p, seq=list(seq), outcome=outcome, first=first))
+    # the process east / west of UTC: every pair of durations
+    for kind in ("mem", "redis", "amqp"):
+        for tz in (9, -5):
+            for seq in itertools.product(range(len(DURS)), repeat=2):
+                for first in FIRST:
+                    out.append(dict(kind=kind, p=2.5, seq=list(seq), outcome="ok", first=first, tz=tz))
     return out
 
 
@@ -51,6 +57,13 @@ def _dt(s):
 
 
 def execute(cell):
+    from ..vloop import local_zone
+
+    with local_zone(cell.get("tz", 0)):  # schedules are naive local stamps
+        return _execute(cell)
+
+
+def _execute(cell):
     p = cell["p"]
     seq = [DURS[i] * p for i in cell["seq"]]
     n_iter = len(seq)
